@@ -21,7 +21,7 @@ from .rendering import Rendered, render
 quiet_naunet()
 MODULES = ["NaunetProps.C16"]
 THEOREMS = ["Naunet.C16.renorm_restores", "Naunet.C16.renorm_ratio", "Naunet.C16.identity_factor", "Naunet.C16.ones_solves",
-            "Naunet.C16.electron_untouched"]
+            "Naunet.C16.electron_untouched", "Naunet.C16.driver_opt0", "Naunet.C16.driver_opt1", "Naunet.C16.driver_identity"]
 RULE = ("networks over multi-element molecules, isotopologues, ions, ice species and (separately) grain species whose elements are "
         "present as atomic species, plus networks where a molecule carries an element that is not atomic; random positive rational "
         "abundance vectors and reference ratios; exact rational solve; case = (network, back-end, vector); non-trivial = at least 2 "
@@ -268,6 +268,12 @@ def run(argv):
             elems = sorted(rd.elem_idx, key=lambda k: rd.elem_idx[k])
             if set(mat) != {(i, j) for i in elems for j in elems}:
                 chk.violation({"kind": "matrix-shape", "net": kind}, "InitRenorm does not assign every element pair", input=show)
+                break
+            unfactored = [a for a in rd.idx if a != "IDX_TGAS" and a not in fpoly]
+            if unfactored:
+                chk.violation({"kind": "species-without-factor", "net": kind},
+                              f"RenormAbundance has no statement for {unfactored[:4]}: every species needs its own factor "
+                              f"(the electron's being 1.0)", input=show)
                 break
             ok = helpers_check(chk, rd, path, truth, show, kind) and oracle(chk, rng, rd, elems, mpoly, fpoly, truth, show, kind, b)
             if ok and b == "dense":
